@@ -11,7 +11,8 @@
 (*     actuals, akw] | [t |-> "leaf", ...] | [t \in Ops, l, r]             *)
 (*  recipe datum argument: [t |-> "none"] | [t |-> "prim", v] | condition  *)
 (*  recipe part: [rk |-> "prim", v] | [rk \in {"map","list","mol"}, key,   *)
-(*     index, value, cond, label]                                          *)
+(*     index, value, cond, lcond, mcond, label]  (lcond / mcond: the        *)
+(*     list_condition / map_condition arguments of a map-or-list part)     *)
 (***************************************************************************)
 EXTENDS Path
 
@@ -47,9 +48,11 @@ MkPartT(r) ==
     [] r.rk = "list" -> Part("list", AndN(AndN(CondOrNull(r.cond), DatumCond(r.index, "index")), DatumCond(r.value, "value")),
                              Null, Null, r.label)
     [] OTHER -> Part("mol", AndN(CondOrNull(r.cond), DatumCond(r.value, "value")),
-                     DatumCond(r.index, "index"), DatumCond(r.key, "key"), r.label)
+                     AndN(CondOrNull(r.lcond), DatumCond(r.index, "index")),
+                     AndN(CondOrNull(r.mcond), DatumCond(r.key, "key")), r.label)
 ArgStoreOk(x) == x.t \in {"none", "prim"} \/ StoreOk(x)
-PartRecipeOk(r) == r.rk = "prim" \/ (ArgStoreOk(r.cond) /\ ArgStoreOk(r.key) /\ ArgStoreOk(r.index) /\ ArgStoreOk(r.value))
+PartRecipeOk(r) == r.rk = "prim" \/ (ArgStoreOk(r.cond) /\ ArgStoreOk(r.key) /\ ArgStoreOk(r.index) /\ ArgStoreOk(r.value)
+                                   /\ ArgStoreOk(r.lcond) /\ ArgStoreOk(r.mcond))
 MkPathT(rparts, dt, mt) ==
   PathT([j \in 1..Len(rparts) |-> MkPartT(rparts[j])],
         \A j \in 1..Len(rparts) : rparts[j].rk = "prim", dt, mt)
